@@ -18,7 +18,7 @@
 #include "evbuf_common.h"
 
 enum { RS_OK = 0, RS_FAILED = 1, RS_SKIP = 2, RS_DEAD = -1 };
-enum { SZ_CAPM1 = -10, SZ_CAP = -11, SZ_CAPP1 = -12, SZ_L1 = -13, SZ_L = -14, SZ_LP1 = -15, SZ_HUGE = -16, SZ_NEG = -17 };
+enum { SZ_CAPM1 = -10, SZ_CAP = -11, SZ_CAPP1 = -12, SZ_L1 = -13, SZ_L = -14, SZ_LP1 = -15, SZ_HUGE = -16, SZ_NEG = -17, SZ_FIT = -18 };
 
 static int MODE = 12, DEPTH, ALPHA, PRUNE;
 static struct evbuffer *EB[2];
@@ -386,6 +386,16 @@ static int op_add_printf(const struct inst *in)
 {
 	size_t n = resolve(in->a1, 0);
 	static char s[4200];
+	if (in->a1 == SZ_FIT) {
+		/* output exactly as long as the free space of the chain add_vprintf will format into
+		 * (the chain with data if it has >= 64 free bytes, else a fresh minimal chain): the
+		 * boundary of its "does it fit including the NUL" test */
+		struct evbuffer_chain *c = *EB[in->b]->last_with_datap;
+		size_t sp = 0;
+		if (c && !(c->flags & EVBUFFER_IMMUTABLE)) sp = c->buffer_len - (size_t)c->misalign - c->off;
+		if (c && sp == 0 && c->next && !(c->next->flags & EVBUFFER_IMMUTABLE)) sp = c->next->buffer_len - (size_t)c->next->misalign - c->next->off;
+		n = (sp >= 64 && sp < sizeof s - 8) ? sp : CAP;
+	}
 	gen_payload((unsigned char *)s, n, 0);
 	for (size_t i = 0; i < n; i++) if (!s[i]) s[i] = '0';
 	s[n] = 0;
@@ -523,6 +533,19 @@ static int op_cb_flags(const struct inst *in)
 	if (fl == EVBUFFER_CB_ENABLED) CB[k].enabled = (int)in->a3; else CB[k].nodefer = (int)in->a3;
 	return chk_ret(in->name, 0, got, 0);
 }
+static int op_loop(const struct inst *in);
+/* compound: remove callback 0, run one loop step (a pending deferred run then finds an empty
+ * list), install a plain callback 0 again.  Three plain instances in a row; brings "what
+ * happens to the pending aggregate when the deferred run finds nobody" within depth 3. */
+static int op_cb_reinstall_across_loop(const struct inst *in)
+{
+	struct inst i = *in;
+	if (!CB[0].installed) return RS_SKIP;
+	i.a1 = 0; i.a2 = 0; if (op_cb_remove(&i) == RS_DEAD) return RS_DEAD;
+	if (op_loop(&i) == RS_DEAD) return RS_DEAD;
+	curop = in->name;
+	i.a1 = 0; i.a2 = 0; return op_cb_add(&i);
+}
 static int op_defer(const struct inst *in)
 {
 	(void)in;
@@ -652,6 +675,7 @@ static void build_instances(void)
 	addi(1, op_add_iovec, "add_iovec", A, 1, 0, 0, 3);
 	addi(2, op_add_iovec, "add_iovec", A, 2, 0, 0, 3);
 	addi(0, op_add_printf, "add_printf", A, 64, 0, 0, 3);
+	addi(0, op_add_printf, "add_printf-exact-fit", A, SZ_FIT, 0, 0, 3);
 	addi(1, op_add_printf, "add_printf", A, 1, 0, 0, 3);
 	addi(2, op_add_printf, "add_printf", A, SZ_CAP, 0, 0, 3);
 	addi(1, op_add_printf, "add_printf", A, 2049, 0, 0, 3);
@@ -689,6 +713,7 @@ static void build_instances(void)
 		addi(1, op_cb_remove, "cb_remove1-by-fn", A, 1, 1, 0, 0);
 		addi(0, op_defer, "defer", A, 0, 0, 0, 0);
 		addi(0, op_loop, "loop", A, 0, 0, 0, 0);
+		addi(0, op_cb_reinstall_across_loop, "cb0-remove+loop+add", A, 0, 0, 0, 0);
 	}
 }
 
@@ -922,7 +947,7 @@ static void body(void)
 			if (validate_buf(EB[b], &M[b], in->name, BN[b])) dead = 1;
 		ORACLE_OVERRIDE = NULL;
 		if (dead) break;
-		if (r != RS_SKIP && in->fn != op_loop) acct_end(listA, r == RS_FAILED);
+		if (r != RS_SKIP && in->fn != op_loop && in->fn != op_cb_reinstall_across_loop) acct_end(listA, r == RS_FAILED);
 		if (mc_failed()) { dead = 1; break; }
 		if (PRUNE && mc_state(canon(), DEPTH - 1 - step)) { step = -1; break; }
 	}
